@@ -731,4 +731,4 @@ def _obligations():
 
 
 def obligations():
-    return _obligations() + [labels_obligation("C17"), selectors_obligation("C17"), mutations_obligation("C17"), effects_obligation("C17"), plumbing_obligation("C17"), overrides_obligation("C17"), options_obligation("C17"), handlers_obligation("C17")]
+    return _obligations() + [labels_obligation("C17"), selectors_obligation("C17"), mutations_obligation("C17"), loopstate_obligation("C17"), effects_obligation("C17"), plumbing_obligation("C17"), overrides_obligation("C17"), options_obligation("C17"), handlers_obligation("C17")]
